@@ -358,6 +358,92 @@ def bound_chain(repo):
     return handled, family
 
 
+# ---------------------------------------------------------------------------
+# NameCheckVisitor._get_typeis_parameter: the computation of the parameter index and its
+# guard are TRANSLATED (statement by statement) into a Gallina function, so that a
+# behaviour-preserving rewrite re-proves and a wrong guard does not.
+
+
+def _ti_cond(e, env):
+    """Python condition -> Gallina bool over cm, im (is_classmethod / is_instancemethod) and n = len(info.params)"""
+    if isinstance(e, ast.BoolOp):
+        op = "||" if isinstance(e.op, ast.Or) else "&&"
+        return "(" + f" {op} ".join(_ti_cond(v, env) for v in e.values) + ")"
+    if isinstance(e, ast.UnaryOp) and isinstance(e.op, ast.Not):
+        return f"(negb {_ti_cond(e.operand, env)})"
+    if isinstance(e, ast.Attribute) and isinstance(e.value, ast.Name) and e.value.id == "info":
+        if e.attr == "is_classmethod":
+            return "cm"
+        if e.attr == "is_instancemethod":
+            return "im"
+        if e.attr == "params":
+            return "(negb (n =? 0))"
+    if isinstance(e, ast.Compare) and len(e.ops) == 1:
+        a, b = _ti_nat(e.left, env), _ti_nat(e.comparators[0], env)
+        op = e.ops[0]
+        if isinstance(op, ast.LtE):
+            return f"({a} <=? {b})"
+        if isinstance(op, ast.Lt):
+            return f"({a} <? {b})"
+        if isinstance(op, ast.GtE):
+            return f"({b} <=? {a})"
+        if isinstance(op, ast.Gt):
+            return f"({b} <? {a})"
+        if isinstance(op, ast.Eq):
+            return f"({a} =? {b})"
+        if isinstance(op, ast.NotEq):
+            return f"(negb ({a} =? {b}))"
+    raise TranslateError(f"name_check_visitor.py:{getattr(e, 'lineno', '?')}: unsupported condition in _get_typeis_parameter: {ast.unparse(e)}")
+
+
+def _ti_nat(e, env):
+    if isinstance(e, ast.Constant) and isinstance(e.value, int) and not isinstance(e.value, bool) and e.value >= 0:
+        return str(e.value)
+    if isinstance(e, ast.Name) and e.id in env:
+        return env[e.id]
+    if isinstance(e, ast.IfExp):
+        return f"(if {_ti_cond(e.test, env)} then {_ti_nat(e.body, env)} else {_ti_nat(e.orelse, env)})"
+    if isinstance(e, ast.Call) and isinstance(e.func, ast.Name) and e.func.id == "len" and len(e.args) == 1 \
+            and ast.unparse(e.args[0]) == "info.params":
+        return "n"
+    if isinstance(e, ast.BinOp) and isinstance(e.op, ast.Add):
+        return f"({_ti_nat(e.left, env)} + {_ti_nat(e.right, env)})"
+    raise TranslateError(f"name_check_visitor.py:{getattr(e, 'lineno', '?')}: unsupported index expression in _get_typeis_parameter: {ast.unparse(e)}")
+
+
+def typeis_index(repo):
+    tree = _parse(repo, "name_check_visitor.py")
+    fn = _find(tree, ast.FunctionDef, "_get_typeis_parameter")
+    env, guards = {}, []
+    for st in fn.body:
+        if isinstance(st, ast.Expr) and isinstance(st.value, ast.Constant):
+            continue
+        subs = [n for n in ast.walk(st) if isinstance(n, ast.Subscript) and ast.unparse(n.value) == "info.params"]
+        if subs:
+            if len({ast.unparse(x.slice) for x in subs}) != 1:
+                raise TranslateError("name_check_visitor.py: several different subscripts of info.params")
+            idx = _ti_nat(subs[0].slice, env)
+            body = f"Some {idx}"
+            for g in reversed(guards):
+                body = f"if {g} then None else {body}"
+            return f"Definition typeis_index (cm im : bool) (n : nat) : option nat :=\n  {body}.\n"
+        if isinstance(st, ast.Assign) and len(st.targets) == 1 and isinstance(st.targets[0], ast.Name):
+            env[st.targets[0].id] = _ti_nat(st.value, env)
+        elif isinstance(st, ast.If) and not st.orelse and len(st.body) == 1:
+            c = _ti_cond(st.test, env)
+            b = st.body[0]
+            if isinstance(b, ast.Return) and (b.value is None or (isinstance(b.value, ast.Constant) and b.value.value is None)):
+                guards.append(c)
+            elif isinstance(b, ast.Assign) and len(b.targets) == 1 and isinstance(b.targets[0], ast.Name) and b.targets[0].id in env:
+                v = b.targets[0].id
+                env[v] = f"(if {c} then {_ti_nat(b.value, env)} else {env[v]})"
+            else:
+                raise TranslateError(f"name_check_visitor.py:{st.lineno}: unsupported statement in _get_typeis_parameter")
+        else:
+            raise TranslateError(f"name_check_visitor.py:{st.lineno}: unsupported statement in _get_typeis_parameter")
+    raise TranslateError("name_check_visitor.py: _get_typeis_parameter never subscripts info.params")
+
+
 def expr_kinds():
     return sorted(c.__name__ for c in ast.expr.__subclasses__())
 
@@ -384,7 +470,9 @@ def translate(repo: str) -> str:
     rows = ";\n".join(f"  ({_s(c)}, {_sl(a)})" for c, a in h)
     return (
         "(* GENERATED by harness/translate/total.py from pyanalyze/{error_code,value,boolability,annotations}.py -- do not edit *)\n"
-        "From Coq Require Import String List Bool.\nRequire Import PV.Total.Dispatch.\nImport ListNotations.\nOpen Scope string_scope.\n\n"
+        "From Coq Require Import String List Bool Arith.\nRequire Import PV.Total.Dispatch.\nImport ListNotations.\n\n"
+        "(* translated from NameCheckVisitor._get_typeis_parameter: None = returns before info.params[...] *)\n"
+        "Open Scope nat_scope.\n" + typeis_index(repo) + "\nOpen Scope string_scope.\n\n"
         f"Definition registered_codes : list string := {_sl(codes)}%list.\n\n"
         f"Definition value_hierarchy : hierarchy := [\n{rows}\n]%list.\n\n"
         f"Definition boolability_unwrapped : list string := {_sl(unwrapped)}%list.\n"
